@@ -238,9 +238,21 @@ func genSparseCase(t *rapid.T) SparseCase {
 		sc.SizeMiB = int64(rapid.SampledFrom([]int{1024, 2048, 2049, 3072, 4096, 4100, 6144, 8192}).Draw(t, "size"))
 	}
 	size := sc.SizeMiB << 20
+	var anchors []int64 // positions written by a ladder: later writes like to come back to them
 	pos := func() int64 {
 		var p int64
-		switch rapid.IntRange(0, 7).Draw(t, "posclass") {
+		cls := rapid.IntRange(0, 7).Draw(t, "posclass")
+		if len(anchors) > 0 && cls >= 4 && cls <= 6 {
+			a := rapid.SampledFrom(anchors).Draw(t, "anchor") + rapid.Int64Range(-9, 9).Draw(t, "pa")*Sec
+			if a < 0 {
+				a = 0
+			}
+			if a >= size {
+				a = size - Sec
+			}
+			return a
+		}
+		switch cls {
 		case 0:
 			p = rapid.Int64Range(0, 64).Draw(t, "p0") * Sec
 		case 1: // around a GiB mark (or, on a small volume, a MiB mark)
@@ -265,7 +277,7 @@ func genSparseCase(t *rapid.T) SparseCase {
 		return p
 	}
 	n := rapid.IntRange(4, 18).Draw(t, "nops")
-	for len(sc.Ops) < n {
+	for len(sc.Ops) < n+len(anchors) {
 		switch rapid.IntRange(0, 11).Draw(t, "op") {
 		case 0, 1, 2, 3, 4:
 			p := pos()
@@ -275,6 +287,17 @@ func genSparseCase(t *rapid.T) SparseCase {
 			}
 			sc.Ops = append(sc.Ops, SpOp{K: "write", Pos: p, Len: l, Seed: rapid.IntRange(1, 250).Draw(t, "seed")})
 		case 5:
+			if !comby && rapid.Bool().Draw(t, "ladder") {
+				// a ladder: one short write every few hundred MiB over the whole volume - the
+				// file's extents are far apart, but no gap reaches a GiB (or: some do)
+				stride := int64(rapid.SampledFrom([]int{300, 700, 900, 1000, 1100, 1500}).Draw(t, "stride")) << 20
+				first := rapid.Int64Range(0, 200).Draw(t, "lfirst") << 20
+				seed := rapid.IntRange(1, 250).Draw(t, "lseed")
+				for p := first; p+8*Sec <= size; p += stride {
+					sc.Ops = append(sc.Ops, SpOp{K: "write", Pos: p, Len: rapid.Int64Range(1, 16).Draw(t, "llen"), Seed: seed})
+					anchors = append(anchors, p)
+				}
+			}
 			if comby {
 				first := rapid.Int64Range(0, size/Blk/2).Draw(t, "first")
 				sc.Ops = append(sc.Ops, SpOp{K: "comb", Pos: first, Len: rapid.Int64Range(200, 5000).Draw(t, "blocks"),
